@@ -87,7 +87,7 @@ def dedup (l : List String) : List String := l.eraseDups
 
 /-- `{"cmd":"rename","stmt":<stmt JSON>,"op":"rename"|"add"|"drop"|"toggle","subst":[[old,new]…],"names":[alias…],"upper":bool}`
     → `{"stmt":<renamed stmt JSON>,"sql":rendered renamed,"orig_sql":rendered original,"ok":verdict of the operation's side
-    condition (rename: FreshInj; add: addOk; drop: dropOk; toggle: true),"loose":freshInjLoose,"d7":d7Class,"changed":bool}`.
+    condition (rename: FreshInj; add: addOk; drop: dropOk; toggle: true),"loose":freshInjLoose,"d7":d7Class,"d7_shape":d7Shape of either statement,"changed":bool}`.
     Old names are normalised here, so the caller may pass spellings. -/
 def handleRename (j : Json) : Except String Json := do
   let sJ ← j.getObjVal? "stmt"
@@ -107,7 +107,7 @@ def handleRename (j : Json) : Except String Json := do
   let orig := Render.stmt ro s
   let sql := Render.stmt ro s'
   pure <| Json.mkObj [("stmt", sJ'), ("sql", .str sql), ("orig_sql", .str orig), ("ok", .bool ok), ("loose", .bool loose),
-    ("d7", .bool d7), ("changed", .bool (sql != orig))]
+    ("d7", .bool d7), ("d7_shape", .bool (Rename.d7Shape s || Rename.d7Shape s')), ("changed", .bool (sql != orig))]
 
 /-- `{"cmd":"renamenames","stmt":<stmt JSON>}` → the names of the statement by kind (normalised, duplicate‑free) -/
 def handleNames (j : Json) : Except String Json := do
